@@ -87,7 +87,11 @@ static nni_aio *vp_mk_aio(size_t i, bool listed)
 	a->a_prov_node.ln_prev   = NULL;
 	a->a_expiring            = false;
 	a->a_skipped_callback    = NULL;
+#ifdef TQ_SLEEP
+	a->a_sleep               = TQ_SLEEP;
+#else
 	a->a_sleep               = nondet_bool();
+#endif
 	a->a_expire_ok           = nondet_bool();
 	a->a_stop                = nondet_bool();
 	a->a_stopped             = false;
@@ -118,8 +122,15 @@ void h_expire_loop(void)
 	g_na             = TQ_NA; /* constant case split */
 	g_race           = TQ_RACE;
 	g_race_done      = false;
+	g_in_cancel      = false;
+	g_passes         = 0;
+	g_eq_sleeps      = 0;
 	g_race_timeout   = nondet_int();
+#ifdef TQ_CF
+	g_cancel_finishes = TQ_CF;
+#else
 	g_cancel_finishes = nondet_bool();
+#endif
 	g_now            = nondet_u64();
 	__CPROVER_assume(g_now < ((nni_time) 1 << 61));
 	g_fire_n[0] = 0; g_fire_n[1] = 0; g_left[0] = 0; g_left[1] = 0;
@@ -140,6 +151,17 @@ void h_expire_loop(void)
 	g_cv_sched = &g_tq->tq_sched_cv;
 	g_cv_drain = &g_tq->tq_wait_cv;
 	g_cv_eq    = &g_eq->eq_cv;
+#ifdef TQ_TIMES
+	/* concrete-time case (keeps list membership concrete for symbolic execution): both deadlines have
+	 * passed at the first clock read (100), the queue is neither stopping nor exiting */
+	g_now             = 99;
+	g_eq->eq_next     = 50;
+	g_eq->eq_stop     = false;
+	g_eq->eq_exit     = false;
+	g_a0->a_expire    = 50;
+	g_a1->a_expire    = 60;
+	g_race_timeout    = 10000;
+#endif
 	nni_aio_expire_loop(g_eq);
 	VP_CANARY();
 }
